@@ -2928,15 +2928,15 @@ HPgetdiskblock(filerec_t *file_rec, int32 block_size, int moveto)
     if (file_rec == NULL || block_size < 0)
         HGOTO_ERROR(DFE_ARGS, FAIL);
 
+    /* file offsets are signed 32-bit quantities: refuse to grow past 2^31-1 */
+    if (file_rec->f_end_off > INT32_MAX - block_size)
+        HGOTO_ERROR(DFE_BADLEN, FAIL);
+
 #ifdef DISKBLOCK_DEBUG
     block_size += (DISKBLOCK_HSIZE + DISKBLOCK_TSIZE);
     /* get the offset of the allocated block */
     ret_value = file_rec->f_end_off + DISKBLOCK_HSIZE;
 #else  /* DISKBLOCK_DEBUG */
-    /* file offsets are signed 32-bit quantities: refuse to grow past 2^31-1 */
-    if (file_rec->f_end_off > INT32_MAX - block_size)
-        HGOTO_ERROR(DFE_BADLEN, FAIL);
-
     /* get the offset of the allocated block */
     ret_value = file_rec->f_end_off;
 #endif /* DISKBLOCK_DEBUG */
